@@ -160,6 +160,40 @@ func Discharge(units []*Unit, cfg SolverCfg) {
 		}(j)
 	}
 	wg3.Wait()
+	// second chance: an obligation that ended in timeout/unknown (no model) is retried once with three times the
+	// budget and fewer competitors — a loaded machine must not turn a provable obligation into an alarm
+	if !cfg.Thorough {
+		var again []job
+		for _, j := range hard {
+			if j.o.Status == "timeout" || j.o.Status == "unknown" || j.o.Status == "error" && j.o.Solver != "size-cap" {
+				again = append(again, j)
+			}
+		}
+		if len(again) > 0 && len(again) <= 64 {
+			cfg2 := cfg
+			cfg2.Timeout = cfg.Timeout * 3
+			var wg4 sync.WaitGroup
+			lim := make(chan bool, 3)
+			for _, j := range again {
+				wg4.Add(1)
+				lim <- true
+				go func(j job) {
+					defer wg4.Done()
+					defer func() { <-lim }()
+					prev := j.o.Status
+					j.o.Status = ""
+					if _, err := os.Stat(j.o.File); err != nil {
+						os.WriteFile(j.o.File, []byte(j.u.VC.script(j.o, false)), 0o644)
+					}
+					stage2(j.u, j.o, cfg2)
+					if j.o.Status == "" {
+						j.o.Status = prev
+					}
+				}(j)
+			}
+			wg4.Wait()
+		}
+	}
 	// vacuity guard: the facts of each unit together with its normal-return condition must not be contradictory
 	var wg2 sync.WaitGroup
 	for _, u := range units {
